@@ -7,7 +7,7 @@ from ..core import Check, derive_seed
 
 def run(check):
     check.rule = ("the runner is rebuilt with -race (instrumented engine files included) and executes: generated run-mode cases of all shapes with failures, "
-                  "random delay plans, cancellation at logical instants, stop conditions (before start, while running, before deployment), overlapping Execute calls on one prepared workflow, outputs that need no step next to steps being launched, input schemas with references between their objects under overlapping runs and parallel loop items, and the parallel-API workload "
+                  "random delay plans, cancellation at logical instants, stop conditions (before start, while running, before deployment), overlapping Execute calls on one prepared workflow, outputs that need no step next to steps being launched, input schemas with references between their objects under overlapping runs and parallel loop items, the engine API parsing one file cache object from several goroutines, and the parallel-API workload "
                   "(several goroutines doing FromYAML+Prepare+Execute of equal texts, sharing one step registry), also as the very first action of a fresh process; GORACE=halt_on_error=0 log_path=..., reports "
                   "are counted from the log files and de-duplicated by the innermost engine frame pair; a report is a violation if either stack has a frame of "
                   "go.flow.arcalot.io/engine outside the harness; non-trivial/distinct = distinct (workload family, shape) executed under the detector")
@@ -115,6 +115,17 @@ def run(check):
             g = {"program": Program([fe], {"success": {"d": Expr(Ref("loop", "outputs", "success", "data"))}}, gen.BASE_INPUT), "scripts": gen.make_scripts([fe], {}), "input": {"tag": "T"},
                  "shape": "self-referencing-input-schema/parallel-loop-items", "family": "self-referencing-input", "outcome": {}}
             case, sem = runfam.build_case("c17-e%04d" % j, g, no_events=True)
+        items.append((case, sem, g))
+    # several goroutines parse (and run) one file cache object through the engine API at once (trees with loops, so that there are
+    # sub-workflow files to collect)
+    for j in range(check.pick(12, 60)):
+        rng = random.Random(derive_seed(check.seed, "c17-engine-par", j))
+        steps, outs = gen.SHAPES[rng.choice(["foreach", "foreach_after"])](rng)
+        prog = Program(steps, outs, gen.BASE_INPUT)
+        g = {"program": prog, "scripts": gen.make_scripts(steps, {}), "input": gen.base_input(rng, 2), "shape": "engine-api-parallel-parse", "family": "engine-parallel-parse", "outcome": {}}
+        case, sem = runfam.build_case("c17-g%04d" % j, g, no_events=True)
+        case["mode"] = "engine"
+        case["extra"] = {"engine": {"cache": "context", "parallel_parses": rng.choice([3, 6])}}
         items.append((case, sem, g))
     # stop conditions reaching a step while it waits for input, while it runs, and while it waits for its deployment configuration
     from . import c04
